@@ -14,10 +14,12 @@ import (
 
 	"pgregory.net/rapid"
 
+	"github.com/formancehq/go-libs/v5/pkg/storage/bun/paginate"
 	"github.com/formancehq/go-libs/v5/pkg/types/metadata"
 
 	ledger "github.com/formancehq/ledger/internal"
 	ledgercontroller "github.com/formancehq/ledger/internal/controller/ledger"
+	"github.com/formancehq/ledger/internal/storage/common"
 	"github.com/formancehq/ledger/pkg/features"
 	"github.com/formancehq/ledger/verifharness/env"
 	"github.com/formancehq/ledger/verifharness/stats"
@@ -438,12 +440,20 @@ func (x c29Write) String() string {
 	}
 }
 
-func TestC29(t *testing.T) {
-	st := stats.New("C29", "exploration", ruleC29, assumePgsim,
+func TestC29(t *testing.T) { runSchemaHistories(t, "C29", ruleC29, 300, 800) }
+
+const ruleSchemaReplay = "the journal of a ledger that lives under a schema: after each generated history (see below) the journal is exported, sent through JSON and imported into a fresh ledger of another bucket; the import must succeed and the copy must list the same accounts (metadata - the chart's defaults included -, first usage, volumes), the same transactions and the same logs as the source: what the chart added when an account was created is part of what the journal must reproduce; non-trivial = an account created with default metadata under a schema; distinct = by schema + history || "
+
+// TestC08Schemas / TestC11Schemas: the histories of C29 with the replay of the journal as the deciding step.
+func TestC08Schemas(t *testing.T) { runSchemaHistories(t, "C08", ruleSchemaReplay+ruleC29, 120, 500) }
+func TestC11Schemas(t *testing.T) { runSchemaHistories(t, "C11", ruleSchemaReplay+ruleC29, 120, 500) }
+
+func runSchemaHistories(t *testing.T, id, rule string, quick, thorough int) {
+	st := stats.New(id, "exploration", rule, assumePgsim,
 		"an unknown schema version is refused in both modes by the code (nothing can be validated against it); the check requires it in strict mode and only counts it in audit mode")
 	defer st.Write(t)
-	n := stats.N(300, 800)
-	st.Set("requested_checks", n)
+	n := stats.N(quick, thorough)
+	st.Set("requested_checks_schema_histories", n)
 	stats.Check(t, n, 29, func(rt *rapid.T) {
 		mode := rapid.SampledFrom([]ledgercontroller.SchemaEnforcementMode{ledgercontroller.SchemaEnforcementStrict, ledgercontroller.SchemaEnforcementStrict, ledgercontroller.SchemaEnforcementAudit}).Draw(rt, "mode")
 		root, raw := genSchemaJSON(rt)
@@ -700,6 +710,9 @@ func TestC29(t *testing.T) {
 			}
 		}
 		rt.Repeat(actions)
+		if id != "C29" {
+			w.replayIntoCopy(rt, id, l, hist)
+		}
 		var classes []string
 		classes = append(classes, "mode:"+string(mode), "adoption:"+adoption)
 		if adoption == "later" && withSchema {
@@ -721,6 +734,74 @@ func TestC29(t *testing.T) {
 			}
 			return map[string]any{"history": h}
 		}, classes...)
-		st.Add("completed_checks", 1)
+		st.Add("completed_checks_schema_histories", 1)
 	})
+}
+
+// replayIntoCopy exports the journal of l, imports it into a fresh ledger and compares every listing of the two.
+func (w *World) replayIntoCopy(rt *rapid.T, id string, l *LState, hist []string) {
+	saved := importsViaHTTP
+	importsViaHTTP = false
+	defer func() { importsViaHTTP = saved }()
+	direct, err := w.Env.Ledger(w.Ctx, l.Name)
+	if err != nil {
+		w.harness("%v", err)
+	}
+	src := &LState{Name: l.Name, Bucket: l.Bucket, Features: l.Features, C: direct}
+	logs := w.exportLogs(src)
+	if len(logs) == 0 {
+		return
+	}
+	wasHTTP := w.ViaHTTP
+	w.ViaHTTP = false
+	cp := w.AddLedger("copy", "b2", l.Features)
+	w.ViaHTTP = wasHTTP
+	history := strings.Join(hist, "\n  ")
+	if err := w.importLogs(cp, logs); err != nil {
+		rt.Fatalf("VIOLATION[%s]: the exported journal of %s (%d logs) is refused by Import on a fresh ledger: %v\nhistory:\n  %s", id, l.Name, len(logs), err, history)
+	}
+	list := func(c ledgercontroller.Controller, what string) []string {
+		var out []string
+		switch what {
+		case "accounts":
+			got, _, err := paginateAll(w, "ListAccounts", common.InitialPaginatedQuery[any]{PageSize: 100, Options: common.ResourceQuery[any]{Expand: []string{"volumes"}}},
+				func(q common.PaginatedQuery[any]) (*paginate.Cursor[ledger.Account], error) { return c.ListAccounts(w.Ctx, q) })
+			if err != nil {
+				w.harness("listing accounts: %v", err)
+			}
+			for _, a := range got {
+				out = append(out, string(mustJSON(a)))
+			}
+		case "transactions":
+			got, _, err := paginateAll(w, "ListTransactions", common.InitialPaginatedQuery[any]{PageSize: 100, Options: common.ResourceQuery[any]{Expand: []string{"volumes"}}},
+				func(q common.PaginatedQuery[any]) (*paginate.Cursor[ledger.Transaction], error) { return c.ListTransactions(w.Ctx, q) })
+			if err != nil {
+				w.harness("listing transactions: %v", err)
+			}
+			for _, a := range got {
+				out = append(out, string(mustJSON(a)))
+			}
+		default:
+			got, _, err := paginateAll(w, "ListLogs", common.InitialPaginatedQuery[any]{PageSize: 100},
+				func(q common.PaginatedQuery[any]) (*paginate.Cursor[ledger.Log], error) { return c.ListLogs(w.Ctx, q) })
+			if err != nil {
+				w.harness("listing logs: %v", err)
+			}
+			for _, a := range got {
+				out = append(out, string(mustJSON(a)))
+			}
+		}
+		return out
+	}
+	for _, what := range []string{"accounts", "transactions", "logs"} {
+		a, b := list(src.C, what), list(cp.C, what)
+		if len(a) != len(b) {
+			rt.Fatalf("VIOLATION[%s]: the source lists %d %s, the ledger rebuilt from its journal %d\nhistory:\n  %s", id, len(a), what, len(b), history)
+		}
+		for i := range a {
+			if a[i] != b[i] {
+				rt.Fatalf("VIOLATION[%s]: %s differ between the source and the ledger rebuilt from its journal:\n  source: %s\n  copy:   %s\nhistory:\n  %s", id, what, a[i], b[i], history)
+			}
+		}
+	}
 }
